@@ -118,8 +118,14 @@ def must_ok(res, what):
 
 
 def sany(path):
-    p = subprocess.run(["java", "-cp", JARS, "tla2sany.SANY", path], cwd=os.path.dirname(path) or ".",
-                       capture_output=True, text=True)
+    import shutil
+    import tempfile
+    tmp = tempfile.mkdtemp(prefix="sany-", dir="/var/tmp")      # SANY unpacks its standard modules into java.io.tmpdir
+    try:
+        p = subprocess.run(["java", "-Djava.io.tmpdir=" + tmp, "-cp", JARS, "tla2sany.SANY", path],
+                           cwd=os.path.dirname(path) or ".", capture_output=True, text=True)
+    finally:
+        shutil.rmtree(tmp, ignore_errors=True)
     bad = p.returncode != 0 or "*** Errors" in p.stdout or "Fatal" in p.stdout or "Could not" in p.stdout
     return (not bad), p.stdout + p.stderr
 
